@@ -16,6 +16,7 @@ import (
 )
 
 type Locker = stdsync.Locker
+
 // Pool mirrors sync.Pool with a behaviour that does not depend on processors
 // or the collector: Get returns the item that was Put last (or New()), so an
 // object that is handed back while still in use is handed out again at once.
@@ -53,6 +54,7 @@ func (p *Pool) Put(x interface{}) {
 	p.items = append(p.items, x)
 	atomic.StoreInt32(&p.real, 0)
 }
+
 type Map = stdsync.Map
 
 func spinLock(p *int32) {
